@@ -5,6 +5,7 @@ package scen
 import (
 	"bytes"
 	"encoding/binary"
+	"errors"
 	"encoding/hex"
 	"encoding/json"
 	"fmt"
@@ -121,6 +122,21 @@ func c11RefDecode(in c11Input) (body *frame.Body, consumedAll bool, err error, p
 	return body, rd.Len() == 0, err, ""
 }
 
+var c11EncodeSeq int64
+
+// c11FailingWriter accepts `left` bytes and then fails (short write + error), like a socket that is reset.
+type c11FailingWriter struct{ left int }
+
+func (w *c11FailingWriter) Write(p []byte) (int, error) {
+	if len(p) <= w.left {
+		w.left -= len(p)
+		return len(p), nil
+	}
+	n := w.left
+	w.left = 0
+	return n, errors.New("connection reset by peer")
+}
+
 // c11Reencode encodes a (partially decoded) body with the custom codec the way the consistency-override path does
 // (EncodeFrame of header + body) and returns the declared body length and the body bytes.
 func c11Reencode(in c11Input, body *frame.Body) (declared int, out []byte, err error, panicked string) {
@@ -129,6 +145,11 @@ func c11Reencode(in c11Input, body *frame.Body) (declared int, out []byte, err e
 			err, panicked = nil, fmt.Sprint(p)
 		}
 	}()
+	// every fourth body is first encoded into a writer that fails after a few bytes (a backend connection that is reset
+	// while the re-encoded frame is written): what that attempt leaves behind must not show in the encode that follows
+	if atomic.AddInt64(&c11EncodeSeq, 1)%4 == 0 {
+		_ = c11Custom.EncodeFrame(&frame.Frame{Header: in.header(), Body: body}, &c11FailingWriter{left: 9 + int(atomic.LoadInt64(&c11EncodeSeq)%23)})
+	}
 	var buf bytes.Buffer
 	if err = c11Custom.EncodeFrame(&frame.Frame{Header: in.header(), Body: body}, &buf); err != nil {
 		return 0, nil, err, ""
